@@ -3,6 +3,8 @@ From ZV.Common Require Import Base Run.
 From ZV.C03 Require Import Model ProofsMem ProofsMixed ProofsZip ProofsSimple.
 From ZV.C03 Require Import ProofsSimpleGet ModelStore ProofsStore ModelZero ProofsZero ModelPlain ProofsPlainFs ProofsPlain.
 From ZV.C03 Require Import ModelWrap ProofsWrap ModelCached ProofsCached ModelDictZip ProofsDictZip ModelCases ProofsStack.
+From Coq Require Import Permutation.
+From ZV.C03 Require Import ModelBatch ProofsBatch ModelNltb ProofsNltb ModelFromData ProofsFromData ModelZeroFinish ProofsZeroFinish.
 Open Scope N_scope.
 
 (* MemoryBlobStore: for EVERY history of put/put_batch/remove/get+contains+size/len issuing fewer than 2^32-1 ids,
@@ -486,3 +488,134 @@ Check stack_history_refines_spec :
   forall k ops, no_zero k = true -> Forall (kP k) (xrecords ops) -> 1 + xputs ops < W32 ->
     st_run (kops k) (kinit k) ops = spec_xrun spec_empty ops.
 Print Assumptions stack_history_refines_spec.
+
+(* ================================================================== *)
+(* third extension: the batch builder and the trie store's builder      *)
+(* ================================================================== *)
+
+(* BatchZipOffsetBlobStoreBuilder: for EVERY batch size (0 and 1 included: flush after every record), every configuration and
+   EVERY interleaving of add_record / flush_batch calls: no slice of the batch buffer is out of range, add_record #i answers i
+   (as u32), and finish() gives exactly what ZipOffsetBlobStoreBuilder gives on the same records - its refusal included *)
+Theorem batch_builder_equals_builder :
+  forall comp c bs ops,
+    batch_build comp c bs ops = Some (seq_ids (length (bop_recs ops)), zip_build comp c (bop_recs ops)).
+Proof. exact batch_builder_equals_builder_proof. Qed.
+Check batch_builder_equals_builder :
+  forall comp c bs ops,
+    batch_build comp c bs ops = Some (seq_ids (length (bop_recs ops)), zip_build comp c (bop_recs ops)).
+Print Assumptions batch_builder_equals_builder.
+
+(* hence get (batch-build records) i = nth records i, len = n, the id answered for record i is i, ids >= n are absent
+   (same hypotheses as zip_get_record: lossless codec, finish succeeded, the content fits sample_width) *)
+Theorem batch_get_record :
+  forall comp decomp, (forall l d, decomp (comp l d) = Some d) ->
+  forall c bs ops ids st i,
+    batch_build comp c bs ops = Some (ids, Some st) ->
+    nsum (map (fun d => nlen (stored comp c d)) (bop_recs ops)) < 2 ^ z_sw c ->
+    (i < length (bop_recs ops))%nat ->
+    zip_get decomp c st (N.of_nat i) = Some (nth i (bop_recs ops) []) /\ zip_len st = nlen (bop_recs ops)
+    /\ nth i ids 0 = N.of_nat i mod W32.
+Proof. exact batch_get_record_proof. Qed.
+Check batch_get_record :
+  forall comp decomp, (forall l d, decomp (comp l d) = Some d) ->
+  forall c bs ops ids st i,
+    batch_build comp c bs ops = Some (ids, Some st) ->
+    nsum (map (fun d => nlen (stored comp c d)) (bop_recs ops)) < 2 ^ z_sw c ->
+    (i < length (bop_recs ops))%nat ->
+    zip_get decomp c st (N.of_nat i) = Some (nth i (bop_recs ops) []) /\ zip_len st = nlen (bop_recs ops)
+    /\ nth i ids 0 = N.of_nat i mod W32.
+Print Assumptions batch_get_record.
+
+Theorem batch_absent :
+  forall comp decomp, (forall l d, decomp (comp l d) = Some d) ->
+  forall c bs ops ids st id,
+    batch_build comp c bs ops = Some (ids, Some st) ->
+    nsum (map (fun d => nlen (stored comp c d)) (bop_recs ops)) < 2 ^ z_sw c ->
+    nlen (bop_recs ops) <= id ->
+    zip_get decomp c st id = None /\ zip_contains st id = false.
+Proof. exact batch_absent_proof. Qed.
+Check batch_absent :
+  forall comp decomp, (forall l d, decomp (comp l d) = Some d) ->
+  forall c bs ops ids st id,
+    batch_build comp c bs ops = Some (ids, Some st) ->
+    nsum (map (fun d => nlen (stored comp c d)) (bop_recs ops)) < 2 ^ z_sw c ->
+    nlen (bop_recs ops) <= id ->
+    zip_get decomp c st id = None /\ zip_contains st id = false.
+Print Assumptions batch_absent.
+
+(* NestLoudsTrieBlobStoreBuilder::finish over ANY lawful trie (a key keeps its node, other keys are not disturbed, a new key gets
+   a node no other key has), whether or not the preset sorts the entries (stable sort by key): every key reads back the value
+   ADDED LAST under it, a key never added is absent, contains_key agrees *)
+Theorem nltb_get_by_key :
+  forall T tr_ok tr_empty tr_insert tr_lookup, trie_lawful T tr_ok tr_empty tr_insert tr_lookup ->
+  forall batch_opt es s, nb_finish T tr_empty tr_insert batch_opt es = Some s ->
+  forall k, nlt_get_by_key T tr_lookup s k = last_value es k /\
+            nlt_contains_key T tr_lookup s k = is_some (last_value es k).
+Proof. exact nltb_get_by_key_proof. Qed.
+Check nltb_get_by_key :
+  forall T tr_ok tr_empty tr_insert tr_lookup, trie_lawful T tr_ok tr_empty tr_insert tr_lookup ->
+  forall batch_opt es s, nb_finish T tr_empty tr_insert batch_opt es = Some s ->
+  forall k, nlt_get_by_key T tr_lookup s k = last_value es k /\
+            nlt_contains_key T tr_lookup s k = is_some (last_value es k).
+Print Assumptions nltb_get_by_key.
+
+(* ... and by id: the insertion order is a permutation of the entries added (the sorted order when the preset sorts),
+   get i = value of entry i in that order for i < n, len = n, ids >= n are absent (every entry is its own record, repeated keys too) *)
+Theorem nltb_get_by_id :
+  forall T tr_ok tr_empty tr_insert tr_lookup, trie_lawful T tr_ok tr_empty tr_insert tr_lookup ->
+  forall batch_opt es s, nb_finish T tr_empty tr_insert batch_opt es = Some s -> nlen es < USIZE_MAX ->
+    Permutation (nb_order batch_opt es) es /\ nlt_len T s = nlen es /\
+    (forall i, (i < length es)%nat ->
+       nlt_get T s (N.of_nat i) = Some (snd (nth i (nb_order batch_opt es) ([], []))) /\ nlt_contains T s (N.of_nat i) = true) /\
+    (forall id, nlen es <= id -> nlt_get T s id = None /\ nlt_contains T s id = false).
+Proof. exact nltb_get_by_id_proof. Qed.
+Check nltb_get_by_id :
+  forall T tr_ok tr_empty tr_insert tr_lookup, trie_lawful T tr_ok tr_empty tr_insert tr_lookup ->
+  forall batch_opt es s, nb_finish T tr_empty tr_insert batch_opt es = Some s -> nlen es < USIZE_MAX ->
+    Permutation (nb_order batch_opt es) es /\ nlt_len T s = nlen es /\
+    (forall i, (i < length es)%nat ->
+       nlt_get T s (N.of_nat i) = Some (snd (nth i (nb_order batch_opt es) ([], []))) /\ nlt_contains T s (N.of_nat i) = true) /\
+    (forall id, nlen es <= id -> nlt_get T s id = None /\ nlt_contains T s id = false).
+Print Assumptions nltb_get_by_id.
+
+(* the stand-in trie of the evaluated XNltb cases obeys the law *)
+Theorem nltb_standin_lawful : trie_lawful atrie atrie_ok [] atrie_insert atrie_lookup.
+Proof. exact atrie_lawful_proof. Qed.
+Check nltb_standin_lawful : trie_lawful atrie atrie_ok [] atrie_insert atrie_lookup.
+Print Assumptions nltb_standin_lawful.
+
+(* MemoryBlobStore::from_data as the start of a history: for every map (distinct ids, as a HashMap has them) on which from_data does
+   not overflow and EVERY history that keeps the counter below 2^32, every observation equals the property's machine started with
+   the records of the map live under their ids and the counter above every id; the id the next put returns is above every seeded id
+   (the counter wrap beyond that bound is the recorded finding memory_id_wraparound) *)
+Theorem mem_from_data_history_refines_spec :
+  forall m st ops, NoDup (keys m) -> mem_from_data m = Some st ->
+    s_next (spec_from_data m) + puts ops < W32 ->
+    mem_run st ops = spec_run (spec_from_data m) ops.
+Proof. exact mem_from_data_refines_proof. Qed.
+Check mem_from_data_history_refines_spec :
+  forall m st ops, NoDup (keys m) -> mem_from_data m = Some st ->
+    s_next (spec_from_data m) + puts ops < W32 ->
+    mem_run st ops = spec_run (spec_from_data m) ops.
+Print Assumptions mem_from_data_history_refines_spec.
+
+Theorem mem_from_data_ids_fresh :
+  forall m st, NoDup (keys m) -> mem_from_data m = Some st ->
+    forall id d, alookup id m = Some d -> id < mnext st.
+Proof. exact mem_from_data_ids_fresh_proof. Qed.
+Check mem_from_data_ids_fresh :
+  forall m st, NoDup (keys m) -> mem_from_data m = Some st ->
+    forall id d, alookup id m = Some d -> id < mnext st.
+Print Assumptions mem_from_data_ids_fresh.
+
+(* ZeroLengthBlobStore::finish(n) as the start of a history: every history in the store's domain (empty records, no removal of a
+   live record) that keeps the count within 2^32 is answered like the property's machine in which ids 0..n-1 hold the empty record
+   and the next id is n *)
+Theorem zero_finish_history_refines_spec :
+  forall n ops, zero_ok n ops -> n + xputs ops <= W32 ->
+    st_run zero_ops (zero_finish n) ops = spec_xrun (spec_zero_finish n) ops.
+Proof. exact zero_finish_history_proof. Qed.
+Check zero_finish_history_refines_spec :
+  forall n ops, zero_ok n ops -> n + xputs ops <= W32 ->
+    st_run zero_ops (zero_finish n) ops = spec_xrun (spec_zero_finish n) ops.
+Print Assumptions zero_finish_history_refines_spec.
